@@ -17,7 +17,7 @@ LEVEL_RULE = (
 )
 EXHAUSTIVE_SUBDOMAINS = ["DF 0..31 x {56,112} bits x {upper,lower,mixed} for structured addresses (single-bit, all-ones, zero)"]
 ASSUMPTIONS = ["canonical form = the string icao() returns for an upper-case DF20 frame of the same address (%06X)"]
-REQUIRED = ["df%d" % d for d in range(32)] + ["ap_text_echoed_in_payload", "ap_field_boundary_value", "literal_structured_strings", "table_replies_of_strangers", "table_first_heard_by_tc0", "table_two_trackers_alive", "table_after_thousands_of_evictions", "table_identical_replies_two_aircraft", "case_upper", "case_lower", "case_mixed", "len56", "len112", "table_one_key",
+REQUIRED = ["df%d" % d for d in range(32)] + ["ap_text_echoed_in_payload", "ap_field_boundary_value", "literal_structured_strings", "table_replies_of_strangers", "table_first_heard_by_tc0", "table_identical_repeats_for_minutes", "table_two_trackers_alive", "table_after_thousands_of_evictions", "table_identical_replies_two_aircraft", "case_upper", "case_lower", "case_mixed", "len56", "len112", "table_one_key",
                                               "allcall_rejects", "df_none"]
 
 AP = (0, 4, 5, 16, 20, 21)
@@ -140,6 +140,21 @@ def m_table(ctx, case):
     else:
         ctx.hit("table_one_key")
     ctx.nontrivial(("t", a, b))
+    if case.get("twin"):
+        # an identification squitter is the SAME string every 5 s for the whole flight: a transponder heard only through
+        # byte-identical repeats (3 minutes of them, also seen twice per batch through two receivers) stays in the table
+        # under its address and its Comm-B reply attaches
+        d = Decode()
+        ok_ = True
+        for t_ in range(100, 281, 20):
+            r = call(d.process_raw, [float(t_), t_ + 0.002], [a, a], [], [], t_ + 1.0)
+            ok_ = ok_ and r[0] == "ok" and len(d.acs) == 1      # heard a second ago: listed after every single call
+        r = call(d.process_raw, [], [], [282.0], [b], 283.0)
+        ctx.ev(11)
+        keys = list(d.acs.keys())
+        if not ok_ or r[0] != "ok" or len(keys) != 1 or d.acs[keys[0]].get("t") != 282.0:
+            ctx.violation("aircraft-heard-through-identical-repeats-lost", frames=[a, b], keys=keys, t=(d.acs[keys[0]].get("t") if keys else None))
+        ctx.hit("table_identical_repeats_for_minutes")
     if case.get("twin"):
         # two transponders answering with bit-identical content (same header, same MB) in one batch: the address lives in
         # the AP field only, so each reply still has to end up under its own aircraft
